@@ -30,8 +30,30 @@ def seeds():
         rows.append("| %s | %s | %s | %s | %s |" % (d.name, m["property"], m["needs_to_manifest"].replace("|", "\\|")[:300], m["caught_by_check"], m["detected_by"].replace("|", "\\|")[:300]))
     return "\n".join(rows)
 
+def theorems():
+    """Current statement names per Properties/Cxx.v (the table in 11.2 names the core ones; this list is regenerated)."""
+    rows = ["| id | statements (Theorem/Corollary/Example names in Properties/Cxx.v, each followed by Print Assumptions) | lines of model+proof in its closure |", "|---|---|---|"]
+    import sys
+    sys.path.insert(0, str(V / "harness"))
+    try:
+        import common
+    except Exception:
+        common = None
+    for f in sorted((V / "coq" / "Properties").glob("C*.v")):
+        txt = f.read_text()
+        names = re.findall(r"^(?:Theorem|Corollary|Example|Lemma)\s+([A-Za-z0-9_']+)", txt, flags=re.M)
+        n = ""
+        if common is not None:
+            try:
+                clo = common.dep_closure(["Properties/%s" % f.name])
+                n = str(sum(len((V / "coq" / c).read_text().splitlines()) for c in clo))
+            except Exception:
+                n = ""
+        rows.append("| %s | %d: %s | %s |" % (f.stem, len(names), ", ".join("`%s`" % x for x in names), n))
+    return "\n".join(rows)
+
 s = (V / "DESIGN.md").read_text()
-for tag, fn in (("FIXES", fixes), ("KNOWN", known), ("SEEDS", seeds)):
+for tag, fn in (("FIXES", fixes), ("KNOWN", known), ("SEEDS", seeds), ("THEOREMS", theorems)):
     s = re.sub(r"(<!-- BEGIN GENERATED %s -->\n).*?(<!-- END GENERATED %s -->)" % (tag, tag), lambda m: m.group(1) + fn() + "\n" + m.group(2), s, flags=re.S)
 (V / "DESIGN.md").write_text(s)
 print("DESIGN.md tables regenerated")
